@@ -1,11 +1,12 @@
 /-
-The validation primitives the C06 and C20 models use are instances of the function the source
+The validation primitives the C06, C08 and C20 models use are instances of the function the source
 text of `_check_convert_array` defines (`Generated/CheckConvertArray.lean`): what those models
 trusted as a primitive is now the translated function.
 -/
 import CtrlVerif.Props.C06GenCCA
 import CtrlVerif.Model.PyP2PHead
 import CtrlVerif.Model.TimeResp
+import CtrlVerif.Model.IOSysDyn
 
 namespace CtrlVerif.C06GenCCA
 
@@ -77,5 +78,109 @@ theorem pyhead_checkConvertArray_generated (x : PyHead.BVal K) (legal : List (Li
       simp [ofBVal] at hm ⊢
       have hm' : ¬ ∃ a ∈ legal, Matches (List.map Dim.n a) [xs.length] := fun ⟨a, ha, h⟩ => hm a ha h
       rw [if_neg hm']; rfl
+
+/-- an `array_like` of the C06 model as `np.asarray` sees it (2-D arrays are stored column by
+column in the model, row-major in NumPy). -/
+def ofTR : TimeResp.Arr → Arr ℚ
+  | .scalar c => ⟨[], [c], Kind.f⟩
+  | .d1 v => ⟨[v.length], v, Kind.f⟩
+  | .d2 r cols => ⟨[r, cols.length], (List.finRange r).flatMap fun i => cols.map (·.get i), Kind.f⟩
+
+theorem flat_single {r : ℕ} (x : Vector ℚ r) :
+    ((List.finRange r).flatMap fun i => [x.get i]) = x.toList := by
+  have h : ∀ l : List (Fin r), l.flatMap (fun i => [x.get i]) = l.map (fun i => x.get i) := by
+    intro l; induction l <;> simp [*]
+  rw [h]
+  apply List.ext_getElem <;> simp [Vector.get]
+
+theorem legalX0 (n : ℕ) :
+    ([[Dim.n n], [Dim.n n, Dim.n 1]] : List LegalShape) = [[n], [n, 1]].map (·.map Dim.n) := rfl
+
+/-- **C06's primitive `convertX0` is the generated function** called as `forced_response` calls it
+(`[(n,), (n, 1)]`, `squeeze=True`), observed at the returned elements; both raise together. -/
+theorem convertX0_generated (n : ℕ) (x : TimeResp.Arr) :
+    dataOf (checkConvertArray (ofTR x) [[Dim.n n], [Dim.n n, Dim.n 1]] true false)
+      = okOf ((TimeResp.convertX0 n x).map Vector.toList) := by
+  rw [generated_cca_eq, legalX0]
+  cases x with
+  | scalar c =>
+    have hm : ∃ t ∈ [[n], [n, 1]].map (·.map Dim.n), Matches t [n] :=
+      (exists_matches_map [[n], [n, 1]] [n]).mpr (by simp)
+    obtain ⟨r, hr, -, hd, -⟩ := squeezed_ok (⟨[n], List.replicate [n].prod c, Kind.f⟩ : Arr ℚ)
+    simp only [checkConvert, ofTR, fillScalar, firstConcrete_map, item, full, concrete_map,
+      TimeResp.convertX0, okOf, bind, Except.bind, pure, Except.pure, Except.map]
+    have h0 : Matches ([n].map Dim.n) [n] := (matches_concrete [n] [n]).mpr rfl
+    simp at h0 hr hd ⊢
+    simp [h0, hr, dataOf, hd]
+  | d1 v =>
+    obtain ⟨r, hr, -, hd, -⟩ := squeezed_ok (ofTR (.d1 v))
+    by_cases h : v.length = n
+    · subst h
+      have hm := (exists_matches_map [[v.length], [v.length, 1]] [v.length]).mpr (by simp)
+      simp only [checkConvert, fillScalar, TimeResp.convertX0, okOf, bind, Except.bind, Except.map]
+      simp [ofTR] at hm hr hd ⊢
+      simp [hm, hr, dataOf, hd]
+    · have hm : ¬ ∃ s ∈ [[n], [n, 1]].map (·.map Dim.n), Matches s [v.length] :=
+        fun hh => by have := (exists_matches_map [[n], [n, 1]] [v.length]).mp hh; simp [h] at this
+      simp only [checkConvert, fillScalar, TimeResp.convertX0, okOf, bind, Except.bind, Except.map]
+      simp [ofTR] at hm ⊢
+      simp [hm, dataOf, h]
+  | d2 r cols =>
+    obtain ⟨q, hq, -, hd, -⟩ := squeezed_ok (ofTR (.d2 r cols))
+    have hiff := exists_matches_map [[n], [n, 1]] [r, cols.length]
+    match cols with
+    | [] =>
+      have hm : ¬ ∃ s ∈ [[n], [n, 1]].map (·.map Dim.n), Matches s [r, 0] :=
+        fun hh => by have := hiff.mp hh; simp at this
+      simp only [checkConvert, fillScalar, TimeResp.convertX0, okOf, bind, Except.bind, Except.map]
+      simp [ofTR] at hm ⊢
+      simp [hm, dataOf]
+    | [x] =>
+      by_cases h : r = n
+      · subst h
+        have hm := hiff.mpr (by simp)
+        simp only [checkConvert, fillScalar, TimeResp.convertX0, okOf, bind, Except.bind, Except.map]
+        simp [ofTR, flat_single] at hm hq hd ⊢
+        simp [hm, hq, dataOf, hd]
+      · have hm : ¬ ∃ s ∈ [[n], [n, 1]].map (·.map Dim.n), Matches s [r, 1] :=
+          fun hh => by have := hiff.mp hh; simp [h] at this
+        simp only [checkConvert, fillScalar, TimeResp.convertX0, okOf, bind, Except.bind, Except.map]
+        simp [ofTR] at hm ⊢
+        simp [hm, dataOf, h]
+    | x :: y :: rest =>
+      have hm : ¬ ∃ s ∈ [[n], [n, 1]].map (·.map Dim.n), Matches s [r, rest.length + 1 + 1] :=
+        fun hh => by have := hiff.mp hh; simp at this
+      simp only [checkConvert, fillScalar, TimeResp.convertX0, okOf, bind, Except.bind, Except.map]
+      simp [ofTR] at hm ⊢
+      simp [hm, dataOf]
+
+/-- the legal shapes `input_output_response` passes for the input array. -/
+def legalU (N m : ℕ) : List (List ℕ) := if m = 1 then [[N], [1, N]] else [[m, N]]
+
+/-- **C08's primitive `checkU2` is the generated function** called as `input_output_response`
+calls it (2-D input array given by its non-empty list of rows of common length `c`), observed at
+the returned elements; both raise together. -/
+theorem checkU2_generated (N m c : ℕ) (rows : List (List CtrlVerif.Q)) (hne : rows ≠ [])
+    (hrect : ∀ r ∈ rows, r.length = c) :
+    dataOf (checkConvertArray ⟨[rows.length, c], rows.flatten, Kind.f⟩
+        ((legalU N m).map (·.map Dim.n)) false false)
+      = (okOf (CtrlVerif.checkU2 N m rows)).map List.flatten := by
+  rw [generated_cca_eq]
+  have hiff := exists_matches_map (legalU N m) [rows.length, c]
+  have hall : (∀ r ∈ rows, r.length = N) ↔ c = N := by
+    constructor
+    · intro h
+      obtain ⟨r, hr⟩ := List.exists_mem_of_ne_nil rows hne
+      rw [← hrect r hr, h r hr]
+    · rintro rfl; exact hrect
+  have hmem : [rows.length, c] ∈ legalU N m ↔ rows.length = m ∧ c = N := by
+    unfold legalU; by_cases h1 : m = 1 <;> simp [h1]
+  have e1 : (∃ s ∈ (legalU N m).map (·.map Dim.n), Matches s [rows.length, c]) ↔ (rows.length = m ∧ c = N) :=
+    hiff.trans hmem
+  have e2 : (rows.length = m ∧ ∀ r ∈ rows, r.length = N) ↔ (rows.length = m ∧ c = N) := and_congr_right' hall
+  have hs : ([rows.length, c] : List ℕ) ≠ [] := by simp
+  unfold checkConvert fillScalar CtrlVerif.checkU2
+  simp only [Bool.false_eq_true, if_false, if_neg hs, bind, Except.bind, e1, e2]
+  by_cases h : rows.length = m ∧ c = N <;> simp [h, dataOf, okOf]
 
 end CtrlVerif.C06GenCCA
